@@ -85,7 +85,7 @@ func (o c11Op) expect() c11Res {
 		}
 		_ = s
 		return c11Res{B: true}
-	case "lookup", "url":
+	case "lookup", "url", "hotp-url", "helpers", "list":
 		return o.run()
 	case "hotp-err", "totp-err", "ocra-err": // failing calls: an error and nothing else, whatever happened before
 		return c11Res{Err: true}
@@ -168,8 +168,39 @@ func (o c11Op) run() c11Res {
 			s += fmt.Sprintf("|%+v|%s", su.Config(), su.String())
 		}
 		return c11Res{S: s, Err: err != nil}
-	case "url":
-		u, err := otp.GenerateTOTPURL(otp.URLParam{Issuer: "I " + o.Text, AccountName: o.Text, Secret: secret, Digits: otp.Digits(o.Digits)})
+	case "helpers":
+		// the input helpers and the small conversions, all on values derived from the operation's own arguments
+		dec, hx := fmt.Sprint(o.Counter), fmt.Sprintf("%x", o.Counter)
+		a, e1 := otp.ParseDecimalToBigEndian8(dec)
+		b, e2 := otp.ParseDecimalChallengeRFC6287(dec)
+		c := otp.To8ByteBigEndian(o.Counter)
+		d, e3 := otp.ParseHexTimestamp(hx)
+		e := otp.LeftPadHex(hx, 16+o.Digits)
+		f, e4 := otp.ParseDecimal64BigEndian(dec)
+		in, e5 := otp.HexInputToOCRA(fmt.Sprintf("%016x", o.Counter), fmt.Sprintf("%x", o.Key), fmt.Sprintf("%040x", o.Counter), hx+"00", hx)
+		k, e6 := otp.DecodeSecret(strings.ToLower(secret))
+		return c11Res{S: fmt.Sprintf("%x %v|%x %v|%x|%x %v|%s|%x %v|%x %x %x %x %x %v|%x %v|%s %d %d", a, e1, b, e2, c, d, e3, e, f, e4,
+			in.Counter, in.Challenge, in.Password, in.SessionInfo, in.Timestamp, e5, k, e6,
+			otp.AlgorithmFromStr(otp.Algorithm(o.Algo).String()).String(), otp.DigitsFromStr(fmt.Sprint(o.Digits)).Int(), otp.Digits(o.Digits).Int())}
+	case "list":
+		l := otp.ListSuites()
+		sortStrings(l)
+		if len(l) == 0 {
+			return c11Res{Err: true}
+		}
+		pick := l[int(o.Counter%uint64(len(l)))]
+		su, err := otp.NewRawSuite(pick)
+		if err != nil {
+			return c11Res{S: pick, Err: true}
+		}
+		return c11Res{S: fmt.Sprintf("%d|%s|%+v|%s|%v", len(l), strings.Join(l, ","), su.Config(), su.String(), otp.IsKnownSuite(pick))}
+	case "url", "hotp-url":
+		up := otp.URLParam{Issuer: "I " + o.Text, AccountName: o.Text, Secret: secret, Digits: otp.Digits(o.Digits), Algorithm: otp.Algorithm(o.Algo), Period: uint(o.Skew) * 7}
+		gen := otp.GenerateTOTPURL
+		if o.Kind == "hotp-url" {
+			gen = otp.GenerateHOTPURL
+		}
+		u, err := gen(up)
 		if err != nil {
 			return c11Res{Err: true}
 		}
@@ -273,7 +304,7 @@ var c11Seq = newPart("C11", "sequential-adversary",
 	checkC11Seq)
 
 func drawC11Op(t *rapid.T, allowHostile bool) c11Op {
-	kinds := []string{"hotp-gen", "hotp-gen", "hotp-val", "totp-gen", "totp-val", "ocra-gen", "ocra-gen", "ocra-gen", "ocra-val", "lookup", "url", "hotp-err", "totp-err", "ocra-err"}
+	kinds := []string{"hotp-gen", "hotp-gen", "hotp-val", "totp-gen", "totp-val", "ocra-gen", "ocra-gen", "ocra-gen", "ocra-val", "lookup", "url", "hotp-url", "helpers", "list", "hotp-err", "totp-err", "ocra-err"}
 	if allowHostile {
 		kinds = append(kinds, "gc", "adversary", "adversary")
 	}
@@ -313,7 +344,7 @@ func drawC11Op(t *rapid.T, allowHostile bool) c11Op {
 		o.Text = rapid.SampledFrom(append(append([]string{"OCRA-1:HOTP-SHA1-6:QN08-T5M", "nonsense", "OCRA-1:HOTP-SHA512-10:C-QN10-PSHA256-S064-T48H"}, registeredNames[:6]...), parsedPool...)).Draw(t, "text")
 		o.Text = spellVariant(t, o.Text)
 	}
-	if o.Kind == "url" {
+	if o.Kind == "url" || o.Kind == "hotp-url" {
 		o.Text = rapid.SampledFrom([]string{"alice", "a b", "x/y?z", "é"}).Draw(t, "text")
 	}
 	return o
